@@ -570,8 +570,8 @@ func witnesses0() []*witness {
 	simple := &witness{name: "simple", why: "plain letters, identifier-like terminal names",
 		trans: []wTrans{{0, []wEdge{{[]rune{'a', 'b'}, 1}, {[]rune{'0'}, 2}}}, {1, []wEdge{{[]rune{'a'}, 1}}}},
 		finals: []wFinal{{"ID", []int{1}}, {"NUM", []int{2, 3}}}}
-	runes := &witness{name: "runes", why: "characters that need escaping in a Go rune literal: quote, backslash, newline, tab, NUL, DEL, Latin-1, BMP and supplementary-plane characters",
-		trans: []wTrans{{0, []wEdge{{[]rune{'\'', '\\'}, 1}, {[]rune{'\n', '\t', 0, 'é', '"', 0x2192, 0x1F600, 0x10FFFF, 0x7F, 0x80}, 2}}}},
+	runes := &witness{name: "runes", why: "characters that need escaping in a Go rune literal: quote, backslash, newline, tab, NUL, DEL, Latin-1, BMP and supplementary-plane characters, and symbols that are not code points (surrogate halves, which a pattern can write as \\xD800)",
+		trans: []wTrans{{0, []wEdge{{[]rune{'\'', '\\'}, 1}, {[]rune{'\n', '\t', 0, 'é', '"', 0x2192, 0x1F600, 0x10FFFF, 0x7F, 0x80}, 2}, {[]rune{0xD800, 0xDFFF}, 3}}}},
 		finals: []wFinal{{"ID", []int{1}}, {"NUM", []int{2}}}}
 	names := &witness{name: "names", why: "terminal names that are not Go identifiers: operators, quotes, backslashes, keywords",
 		trans: []wTrans{{0, []wEdge{{[]rune{'a'}, 1}, {[]rune{'b'}, 2}, {[]rune{'c'}, 3}, {[]rune{'d'}, 4}}}},
